@@ -13,7 +13,10 @@ Record mreport := {
 Inductive mop :=
 | MReports (rs : list mreport)                 (* issued from concurrent goroutines *)
 | MSet (sid : Z) (t : ftype) (limit burst : Z)
-| MRemove (i : Z).
+| MRemove (i : Z)
+| MOverlap (r : mreport) (sid : Z) (t : ftype) (limit burst : Z).
+    (* the report had looked the upstream state up and was parked before the per-upstream lock
+       while the schema change was handled; then it went on *)
 (* the record of one schema after a step, by limit member *)
 Record sview := {
   v_s : Z;
@@ -68,6 +71,12 @@ Definition model_step (s : sstate) (o : bop) : sstate * sobs :=
   | BReports rs => let '(s', (cs, ans)) := run_entries s rs in (s', obs_of s' cs ans)
   | BSet bk n g => let s' := fst (sstep s (SSet (typ_of bk) n g)) in (s', obs_of s' [] [])
   | BRemove i => let s' := fst (sstep s (SDrop i false)) in (s', obs_of s' [] [])
+  | BOverlap true r bk n g =>            (* the lock served the report first *)
+      let '(s1, (cs, ans)) := run_entries s [r] in
+      let s2 := fst (sstep s1 (SSet (typ_of bk) n g)) in (s2, obs_of s2 cs ans)
+  | BOverlap false r bk n g =>           (* the change first *)
+      let s1 := fst (sstep s (SSet (typ_of bk) n g)) in
+      let '(s2, (cs, ans)) := run_entries s1 [r] in (s2, obs_of s2 cs ans)
   end.
 
 (* the model's own trace of a list of batches (used by the history theorems): the reports of a
@@ -86,22 +95,43 @@ Definition entry_of (clients : Z) (sid : Z) (i : Z) (items : list mitem) : rentr
   | None => EDrop i
   end.
 
-(* the per-schema operation of the model; reports whose item types do not fit are refused as a whole *)
-Definition derive (M : mstate) (clients : Z) (sid : Z) (o : list (Z * list mitem) + (Z * ftype * Z * Z) + Z)
-  : option bop :=
-  match o with
-  | inl (inl rs) =>
-      Some (BReports (flat_map (fun r => if report_mismatch M (snd r) then []
-                                         else [entry_of clients sid (fst r) (snd r)]) rs))
-  | inl (inr (sid', t, n, g)) => if sid' =? sid then Some (BSet (is_bucket t) n g) else None
-  | inr i => Some (BRemove i)
+(* what was issued (without the observations) *)
+Inductive iop :=
+| IReports (rs : list (Z * list mitem))
+| ISet (sid : Z) (t : ftype) (limit burst : Z)
+| IRemove (i : Z)
+| IOverlap (report_first : bool) (r : Z * list mitem) (sid : Z) (t : ftype) (limit burst : Z).
+
+(* item types against the schemas as they are after schema [sid] got type [t] *)
+Definition item_mismatch_after (M : mstate) (sid : Z) (t : ftype) (it : mitem) : bool :=
+  match it_typ it, find_schema (it_s it) (m_schemas M) with
+  | Some t', Some s => negb (ftype_eqb t' (if it_s it =? sid then t else h_typ s))
+  | _, _ => false
   end.
 
-Definition issued (o : mop) : list (Z * list mitem) + (Z * ftype * Z * Z) + Z :=
+(* the per-schema operation of the model; reports whose item types do not fit are refused as a whole *)
+Definition derive (M : mstate) (clients : Z) (sid : Z) (o : iop) : option bop :=
   match o with
-  | MReports rs => inl (inl (map (fun r => (r_i r, r_items r)) rs))
-  | MSet sid t n g => inl (inr (sid, t, n, g))
-  | MRemove i => inr i
+  | IReports rs =>
+      Some (BReports (flat_map (fun r => if report_mismatch M (snd r) then []
+                                         else [entry_of clients sid (fst r) (snd r)]) rs))
+  | ISet sid' t n g => if sid' =? sid then Some (BSet (is_bucket t) n g) else None
+  | IRemove i => Some (BRemove i)
+  | IOverlap first r sid' t n g =>
+      let refused := if first then report_mismatch M (snd r)
+                     else existsb (item_mismatch_after M sid' t) (snd r) in
+      let e := entry_of clients sid (fst r) (snd r) in
+      if sid' =? sid
+      then Some (if refused then BSet (is_bucket t) n g else BOverlap first e (is_bucket t) n g)
+      else if refused then None else Some (BReports [e])
+  end.
+
+Definition issued (o : mop) : iop :=
+  match o with
+  | MReports rs => IReports (map (fun r => (r_i r, r_items r)) rs)
+  | MSet sid t n g => ISet sid t n g
+  | MRemove i => IRemove i
+  | MOverlap r sid t n g => IOverlap false (r_i r, r_items r) sid t n g
   end.
 
 Definition clients_after (M : mstate) (o : mop) : list Z :=
@@ -109,10 +139,11 @@ Definition clients_after (M : mstate) (o : mop) : list Z :=
   | MReports rs => fold_left (fun l r => zadd (r_i r) l) rs (m_clients M)    (* all heartbeat first *)
   | MSet _ _ _ _ => m_clients M
   | MRemove i => zremove i (m_clients M)
+  | MOverlap r _ _ _ _ => zadd (r_i r) (m_clients M)
   end.
 
 (* one step of the model on all schemas: new state and, per schema, what it did and saw *)
-Definition mstep_with (M : mstate) (cl : list Z) (o : list (Z * list mitem) + (Z * ftype * Z * Z) + Z)
+Definition mstep_with (M : mstate) (cl : list Z) (o : iop)
   : mstate * list (Z * option (bop * sobs)) :=
   let clients := m_extra M + Z.of_nat (List.length cl) in
   let res := map (fun ks => match derive M clients (fst ks) o with
@@ -161,6 +192,7 @@ Definition view_obs (t : ftype) (v : sview) (cs : list Z) (ans : list (option (Z
 Definition types_after (types : list (Z * ftype)) (o : mop) : list (Z * ftype) :=
   match o with
   | MSet sid t _ _ => map (fun kt => if fst kt =? sid then (fst kt, t) else kt) types
+  | MOverlap _ sid t _ _ => map (fun kt => if fst kt =? sid then (fst kt, t) else kt) types
   | _ => types
   end.
 
@@ -174,6 +206,21 @@ Definition project (types : list (Z * ftype)) (sid : Z) (o : mop) (vs : list svi
           Some (BReports (map fst ps), view_obs t v (map fst items) (map snd items))
       | MSet sid' t' n g => if sid' =? sid then Some (BSet (is_bucket t') n g, view_obs t v [] []) else None
       | MRemove i => Some (BRemove i, view_obs t v [] [])
+      | MOverlap r sid' t' n g =>
+          (* a refusal is expected if the items do not fit the types before or after the change *)
+          let fits := negb (obs_mismatch types (r_items r) || obs_mismatch (types_after types o) (r_items r)) in
+          let ps := proj_report (if fits then types else []) sid r in
+          let ps := match r_res r with RErr => if fits then ps else [] | _ => ps end in
+          let items := flat_map (fun p => match snd p with Some ca => [ca] | None => [] end) ps in
+          if sid' =? sid
+          then match ps with
+               | [] => Some (BSet (is_bucket t') n g, view_obs t v [] [])
+               | p :: _ => Some (BOverlap false (fst p) (is_bucket t') n g, view_obs t v (map fst items) (map snd items))
+               end
+          else match ps with
+               | [] => None
+               | _ => Some (BReports (map fst ps), view_obs t v (map fst items) (map snd items))
+               end
       end
   | _, _ => None
   end.
@@ -217,6 +264,9 @@ Definition bop_sobs_eqb (m p : bop * sobs) : bool :=
        && list_eqb Z.eqb (fold_right insert_z [] (drops mr)) (fold_right insert_z [] (drops pr))
    | BSet b1 n1 g1, BSet b2 n2 g2 => Bool.eqb b1 b2 && (n1 =? n2) && (g1 =? g2)
    | BRemove i1, BRemove i2 => i1 =? i2
+   | BOverlap _ r1 b1 n1 g1, BOverlap _ r2 b2 n2 g2 =>      (* the order is not observed *)
+       list_eqb keyed_eqb (keyed [r1] (o_cur mo) (o_ans mo)) (keyed [r2] (o_cur po) (o_ans po))
+       && list_eqb Z.eqb (drops [r1]) (drops [r2]) && Bool.eqb b1 b2 && (n1 =? n2) && (g1 =? g2)
    | _, _ => false
    end)
   && list_eqb ent_eqb (sort_by_id (o_quotas mo)) (o_quotas po)
@@ -227,18 +277,19 @@ Definition step_agrees (types : list (Z * ftype)) (o : mop) (vs : list sview)
            (ms : list (Z * option (bop * sobs))) : bool :=
   forallb (fun km => opt_eqb bop_sobs_eqb (snd km) (project types (fst km) o vs)) ms.
 
-Definition reorder (o : mop) : list mop :=
+Definition reorder (o : mop) : list iop :=
   match o with
-  | MReports rs => map MReports (perms rs)
-  | _ => [o]
+  | MReports rs => map (fun p => issued (MReports p)) (perms rs)
+  | MOverlap r sid t n g => [IOverlap false (r_i r, r_items r) sid t n g; IOverlap true (r_i r, r_items r) sid t n g]
+  | _ => [issued o]
   end.
 
-Fixpoint first_agreeing (M : mstate) (types : list (Z * ftype)) (o : mop) (vs : list sview) (cands : list mop)
+Fixpoint first_agreeing (M : mstate) (types : list (Z * ftype)) (o : mop) (vs : list sview) (cands : list iop)
   : option mstate :=
   match cands with
   | [] => None
   | c :: r =>
-      let (M', ms) := mstep_with M (clients_after M o) (issued c) in
+      let (M', ms) := mstep_with M (clients_after M o) c in
       if step_agrees types o vs ms then Some M' else first_agreeing M types o vs r
   end.
 
